@@ -190,8 +190,14 @@ class SimOS(types.ModuleType):
 
     def _exit(self, code=0):
         w = simmp.WORLD
-        if w is None or w.current_proc() is w.parent:
-            raise SimUnsupported("os._exit in the main process")
+        if w is None:
+            raise SimUnsupported("os._exit outside a simulation")
+        if w.current_proc() is w.parent:
+            # the command ends here and now with this status, whatever its other threads are doing
+            w.seam(Op("os._exit", "P"))
+            w.outcome = ["exit", int(code) & 0xFF]
+            w.kernel.program_exited = True
+            raise SimKilled()
         proc = w.current_proc()
         w.seam(Op("os._exit", proc.label))
         # leaves at once: no exit handlers, queue buffers are not flushed
